@@ -42,7 +42,7 @@ let case md line =
     let data = bytes_of_hex (next t) in
     let want_cuts = not (more t && next t = "c0") in
     let p = { c_poly = poly; c_avg = n_of_int avg; c_min = n_of_int mi; c_max = n_of_int ma } in
-    if not (rabin_accepts p.c_avg p.c_min p.c_max) then "err:rejected | pok=0"
+    if not (rabin_accepts p.c_avg p.c_min p.c_max) || not (poly_accepts poly) then "err:rejected | pok=0"
     else begin
       let r = match chunks_impl md p (n_of_int hint) data sched with
         | Ok cs -> Printf.sprintf "ok %d%s" (b2i (List.concat cs = data)) (lens cs)
@@ -80,6 +80,13 @@ let case md line =
     let p = { c_poly = poly; c_avg = n_of_int avg; c_min = n_of_int mi; c_max = n_of_int ma } in
     let w = win_at (tab_of p) p data (n_of_int l) in
     Printf.sprintf "ok %d %d" (int_of_n w.a_hash) (int_of_n (fp_direct poly w.a_fifo))
+  | "D" ->
+    (* D <poly hex> <window hex>: low 30 bits of the table-free fingerprint (pmod of the window bytes) *)
+    let poly = n_of_hex (next t) in
+    let w = bytes_of_hex (next t) in
+    let rec low p d = if d = 0 then 0 else match p with
+      | XH -> 1 | XO q -> 2 * low q (d - 1) | XI q -> 2 * low q (d - 1) + 1 in
+    (match fp_direct poly w with N0 -> "ok 0" | Npos q -> Printf.sprintf "ok %d" (low q 30))
   | k -> "model-failure:unknown case kind " ^ k
 
 let () =
